@@ -273,7 +273,9 @@ func observeProcess(ev *parser.Evaluator, obj map[string]interface{}) (o Obs) {
 				o.Escaped = "Process: " + panicText(r)
 			}
 		}()
+		currentEv = ev
 		v, err := ev.Process(obj)
+		currentEv = nil
 		o.V = v
 		o.E = errClass(err)
 		if err != nil {
